@@ -701,7 +701,7 @@ def check_routes(run, routes, rule='R15'):
             found = False
             hit = None
             for n in own_walk(f.node):
-                if isinstance(n, ast.expr) and isinstance(n, ast.Call):
+                if isinstance(n, (ast.Call, ast.Attribute, ast.BinOp)):
                     try:
                         e = canon(fi, n)
                     except Exception:
@@ -1833,3 +1833,242 @@ def tables_c14(run):
         ('super_pose:SMPose.norm', '3D objects normalise with trnorm', ['self.__class__([trnorm(x) for x in self.data])'], 'any'),
         ('quaternion:Quaternion.unit', 'unit quaternion of every element', ['UnitQuaternion([unit(q._A) for q in self], norm=False)'], 'return'),
     ], rule=RULE)
+
+
+# =========================================================================== C06 applying a pose to points
+def tables_c06(run):
+    f = run.prog.func('super_pose:SMPose.__mul__')
+    fi = FuncInfo.of(f)
+    cfg = CFG(f.node)
+    from ..cfg import reaching_defs
+    IN, OUT = reaching_defs(cfg, f.allparams)
+    reach = cfg.reachable()
+    L, R = f.params[0], f.params[1]
+    # operand integrity: the operands are never rebound to a transformed value inside the operator
+    n_reb = 0
+    for node in cfg.nodes:
+        a = node.ast
+        if node.id in reach and node.kind == 'stmt' and isinstance(a, (ast.Assign, ast.AugAssign)):
+            tg = a.targets if isinstance(a, ast.Assign) else [a.target]
+            for t in tg:
+                if isinstance(t, ast.Name) and t.id in (L, R):
+                    n_reb += 1
+                    v = canon(fi, a.value, inline=False)
+                    if matches('getvector(%s, *_X)' % t.id, v) is not None or matches('asarray(%s)' % t.id, v) is not None or \
+                            matches('array(%s)' % t.id, v) is not None or matches('getvector(%s)' % t.id, v) is not None:
+                        run.holds(RULE, f.key, 'operand %s rebound to its normal form' % t.id, src(a, 50), f=f, node=a)
+                    else:
+                        run.violation(RULE, f.key, 'operand %s rebound: %s' % (t.id, src(a, 50)), 'the %s operand of * is replaced by a transformed '
+                                      'value (%s) before the product routes: the product is no longer taken with the caller\'s array '
+                                      '(e.g. a square d x d array of points is silently transposed)' % ('right' if t.id == R else 'left', src(a.value, 40)), f=f, node=a)
+    if n_reb == 0:
+        run.holds(RULE, f.key, 'operand integrity', 'neither operand is rebound inside the operator', f=f)
+    # routes
+    pats_se = ['h2e(left.A @ e2h(v))', 'h2e(left.A @ e2h(right))']
+    rets = [(r, canon(fi, r.value, inline=False)) for r in own_returns(f.node) if r.value is not None]
+    facts = must_facts(cfg)
+    # the local v is the normalised point: every definition of v is getvector(right[, out='col']) or e2h(v)
+    vdefs = [canon(fi, st.value, inline=False) for st in own_walk(f.node)
+             if isinstance(st, ast.Assign) and isinstance(st.targets[0], ast.Name) and st.targets[0].id == 'v']
+    okv = vdefs and all(matches("getvector(right, out='col')", e) is not None or matches('getvector(right)', e) is not None
+                        or matches('e2h(v)', e) is not None for e in vdefs)
+    (run.holds if okv else run.violation)(RULE, f.key, 'point normalisation', 'v = getvector(right) (lifted by e2h for SE(n))' if okv else
+                                          'the point operand is not normalised by getvector(right) before the product: %s' % [src(e, 40) for e in vdefs], f=f)
+    want = {
+        'SE(n) x vector': lambda e: matches('h2e(left.A @ e2h(v))', e) is not None,
+        'SO(n) x vector': lambda e: matches('left.A @ v', e) is not None,
+        'SO(n) x matrix': lambda e: matches('left.A @ right', e) is not None,
+        'SE(n) x matrix': lambda e: matches('h2e(left.A @ e2h(right))', e) is not None,
+        'SE(n) sequence x vector': lambda e: matches('array([h2e(x @ v).flatten() for x in left.A]).T', e) is not None,
+        'SO(n) sequence x vector': lambda e: matches('array([(x @ v).flatten() for x in left.A]).T', e) is not None,
+        'SO(n) sequence x matrix': lambda e: matches('array([x.A @ y for x, y in zip(left, right.T)]).T', e) is not None,
+        'SE(n) sequence x matrix': lambda e: matches('array([h2e(x.A @ e2h(y)).flatten() for x, y in zip(left, right.T)]).T', e) is not None,
+    }
+    found = {k: False for k in want}
+    for (r, e) in rets:
+        for k, pred in want.items():
+            if pred(e):
+                found[k] = True
+                node = cfg.node_of(r)
+                fs = facts.get(node.id, frozenset())
+                se = any(fc[1] and matches('left.isSE', fc[2].ast) is not None for fc in fs)
+                so = any(fc[1] and matches('left.isSO', fc[2].ast) is not None for fc in fs) or any((not fc[1]) and matches('left.isSE', fc[2].ast) is not None for fc in fs)
+                if k.startswith('SE') and not se or k.startswith('SO') and not so:
+                    run.violation(RULE, f.key, 'route ' + k, 'the %s route is not guarded by the matching isSE/isSO test' % k, f=f, node=r)
+                else:
+                    run.holds(RULE, f.key, 'route ' + k, 'R p + t through homogeneous lift-multiply-project' if k.startswith('SE') else 'R p', f=f, node=r)
+    for k, ok in found.items():
+        if not ok:
+            run.error('R16: SMPose.__mul__: route "%s" has no recognised form' % k)
+    # array chain ends in raise
+    from ..astutil import if_chain, ends_in_raise
+    ok_raise = False
+    for st in own_walk(f.node):
+        if isinstance(st, ast.If):
+            arms, els = if_chain(st)
+            if len(arms) >= 4 and els is not None and ends_in_raise(els) and any('isvector' in ast.unparse(t) for (t, _) in arms):
+                ok_raise = True
+    (run.holds if ok_raise else run.violation)(RULE, f.key, 'non-conforming arrays raise', 'the array branch chain ends in raise' if ok_raise else
+                                               'the array branch chain does not end in `else: raise`', f=f)
+    # base functions
+    cx = Ctx(run, 'base/transformsNd:homtrans')
+    rets2 = sl_eval(cx)
+    ok = len(rets2) == 1 and Normaliser(rename=cx.rename).poly(rets2[0][1]) == Normaliser().poly(parse_expr('h2e(P0 @ e2h(P1))'))
+    (run.holds if ok else run.violation)(RULE, cx.f.key, 'homtrans', 'h2e(T @ e2h(p))' if ok else 'homtrans is not h2e(T @ e2h(p))', f=cx.f)
+    ch = Ctx(run, 'base/transformsNd:h2e')
+    got = {str(Normaliser(rename=ch.rename).poly(e)) for (r, e) in sl_eval(ch)}
+    want_h = {str(Normaliser().poly(parse_expr('P0[:-1, :] / tile(P0[-1, :], (P0.shape[0] - 1, 1))'))),
+              str(Normaliser().poly(parse_expr('P0[0:-1] / P0[-1]')))}
+    (run.holds if got == want_h else run.violation)(RULE, ch.f.key, 'h2e', 'divide by the last row' if got == want_h else 'h2e returns %s' % sorted(got), f=ch.f)
+    ce = Ctx(run, 'base/transformsNd:e2h')
+    got = {str(Normaliser(rename=ce.rename).poly(e)) for (r, e) in sl_eval(ce)}
+    want_e = {str(Normaliser().poly(parse_expr('vstack([P0, ones((1, P0.shape[1]))])'))),
+              str(Normaliser().poly(parse_expr('vstack((P0, 1))')))}
+    (run.holds if got == want_e else run.violation)(RULE, ce.f.key, 'e2h', 'append a row of ones' if got == want_e else 'e2h returns %s' % sorted(got), f=ce.f)
+    check_routes(run, [
+        ('quaternion:UnitQuaternion.__mul__', 'unit quaternion * vector through qvmul', ['qvmul(left._A, getvector(right, 3))'], 'any'),
+        ('quaternion:UnitQuaternion.__mul__', 'unit quaternion sequence * vector', ['array([qvmul(x, getvector(right)) for x in left._A]).T'], 'any'),
+        ('quaternion:UnitQuaternion.__mul__', 'unit quaternion * columns', ['array([qvmul(left._A, x) for x in right.T]).T'], 'any'),
+        ('DualQuaternion:DualQuaternion.__mul__', 'unit dual quaternion sandwich', ['(left * DualQuaternion.Pure(getvector(right, 3)) * left.conj()).dual.v'], 'any'),
+    ], rule=RULE)
+
+
+# =========================================================================== C04 representations agree
+SIBLINGS = [
+    # (name, SO3 form, SE3 form, UnitQuaternion form)
+    ('Rx', 'cls([rotx(x, unit=unit) for x in getvector(theta)], check=False)', 'cls([trotx(x, t=t, unit=unit) for x in getvector(theta)], check=False)', None),
+    ('Ry', 'cls([roty(x, unit=unit) for x in getvector(theta)], check=False)', 'cls([troty(x, t=t, unit=unit) for x in getvector(theta)], check=False)', None),
+    ('Rz', 'cls([rotz(x, unit=unit) for x in getvector(theta)], check=False)', 'cls([trotz(x, t=t, unit=unit) for x in getvector(theta)], check=False)', None),
+    ('Eul', ['cls(eul2r(angles, unit=unit), check=False)', 'cls([eul2r(a, unit=unit) for a in angles], check=False)'],
+     ['cls(eul2tr(angles, unit=unit), check=False)', 'cls([eul2tr(a, unit=unit) for a in angles], check=False)'],
+     'cls(r2q(eul2r(angles, unit=unit)), check=False)'),
+    ('RPY', ['cls(rpy2r(angles, order=order, unit=unit), check=False)', 'cls([rpy2r(a, order=order, unit=unit) for a in angles], check=False)'],
+     ['cls(rpy2tr(angles, order=order, unit=unit), check=False)', 'cls([rpy2tr(a, order=order, unit=unit) for a in angles], check=False)'],
+     ['cls(r2q(rpy2r(angles, unit=unit, order=order)), check=False)', 'cls(r2q(rpy2r(angles, order=order, unit=unit)), check=False)']),
+    ('OA', 'cls(oa2r(o, a), check=False)', 'cls(oa2tr(o, a), check=False)', 'cls(r2q(oa2r(o, a)), check=False)'),
+    ('AngVec', 'cls(angvec2r(theta, v, unit=unit), check=False)', 'cls(angvec2tr(theta, v, unit=unit), check=False)', None),
+    ('EulerVec', 'cls(angvec2r(norm(w), w), check=False)', 'cls(angvec2tr(norm(w), w), check=False)', None),
+]
+
+
+def tables_c04(run):
+    rule = 'R13'
+    for (nm_, so3, se3, uq) in SIBLINGS:
+        for cls, form in (('pose3d:SO3', so3), ('pose3d:SE3', se3), ('quaternion:UnitQuaternion', uq)):
+            if form is None:
+                continue
+            forms = form if isinstance(form, list) else [form]
+            key = '%s.%s' % (cls, nm_)
+            f = run.prog.func(key)
+            fi = FuncInfo.of(f)
+            rets = [canon(fi, r.value) for r in own_returns(f.node) if r.value is not None]
+            bad = [e for e in rets if not any(matches(p, e) is not None for p in forms)]
+            if not rets:
+                run.error('R13: %s has no return' % key)
+            elif bad:
+                # distinguish a dropped option (definite) from an unknown shape
+                txt = src(bad[0], 80)
+                dropped = [o for o in ('unit=unit', 'order=order', 't=t') if o in forms[0] and o not in ast.unparse(bad[0])]
+                if dropped:
+                    run.violation(rule, key, 'shared constructor ' + nm_, 'the option %s is not passed on to the base function: %s' % (', '.join(dropped), txt), f=f)
+                else:
+                    run.error('R13: %s: return %s has none of the recognised sibling forms (%s)' % (key, txt, forms[0]))
+            else:
+                run.holds(rule, key, 'shared constructor ' + nm_, 'reduces to %s' % forms[0], f=f)
+    # T15: half-angle quaternions, axis slot 1/2/3
+    for ax, slot in (('Rx', 1), ('Ry', 2), ('Rz', 3)):
+        key = 'quaternion:UnitQuaternion.%s' % ax
+        f = run.prog.func(key)
+        fi = FuncInfo.of(f)
+        ents = ['cos(a / 2)', '0', '0', '0']
+        ents[slot] = 'sin(a / 2)'
+        pat = 'cls([r_[%s] for a in getunit(getvector(angle), unit)], check=False)' % ', '.join(ents)
+        rets = [canon(fi, r.value) for r in own_returns(f.node) if r.value is not None]
+        if rets and all(matches(pat, e) is not None for e in rets):
+            run.holds(rule, key, 'half-angle quaternion', '[cos(a/2), sin(a/2) in slot %d] with the angle converted by getunit' % slot, f=f)
+        else:
+            e = rets[0] if rets else None
+            # recognise the table shape to report the wrong slot / missing half angle precisely
+            b = matches('cls([r_[_A0, _A1, _A2, _A3] for a in getunit(getvector(angle), unit)], check=False)', e) if e is not None else None
+            if b is not None:
+                got = [ast.unparse(b['_A%d' % i]) for i in range(4)]
+                run.violation(rule, key, 'half-angle quaternion', 'quaternion entries are [%s]; rotation about %s by a requires [%s]' % (', '.join(got), ax[1].lower(), ', '.join(ents)), f=f)
+            else:
+                run.error('R13: %s: unrecognised form %s' % (key, src(e, 80) if e is not None else None))
+    # conversions
+    check_routes(run, [
+        ('quaternion:UnitQuaternion.R', 'rotation matrix through q2r (both lengths)', ['array([q2r(q) for q in self.data])', 'q2r(self._A)'], 'return'),
+        ('quaternion:UnitQuaternion.SO3', 'SO3 of a unit quaternion', ['SO3(self.R, check=False)'], 'return'),
+        ('quaternion:UnitQuaternion.SE3', 'SE3 of a unit quaternion', ['SE3(r2t(self.R), check=False)'], 'return'),
+        ('twist:Twist3.SE3', 'pose of a twist', ['SE3(self.exp())'], 'return'),
+        ('twist:Twist2.SE2', 'pose of a twist', ['SE2(self.exp())'], 'return'),
+        ('pose3d:SE3.Twist3', 'twist of a pose', ['Twist3(self.log(twist=True))'], 'return'),
+        ('pose2d:SE2.Twist2', 'twist of a pose', ['Twist2(self.log(twist=True))'], 'return'),
+        ('pose2d:SO2.SE2', 'SO2 -> SE2 embedding', ['SE2(rt2tr(self.A, [0, 0]))'], 'return'),
+        ('pose3d:SE3.SO3', 'SO3 -> SE3 embedding', ['cls(r2t(R))'], 'return'),
+        ('DualQuaternion:UnitDualQuaternion.SE3', 'pose of a unit dual quaternion', ['SE3(rt2tr(q2r(self.real.A), (2 * self.dual * self.real.conj()).v))'], 'return'),
+    ], rule=rule)
+    # UnitQuaternion from matrices / objects: r2q of the rotation part
+    f = run.prog.func('quaternion:UnitQuaternion.__init__')
+    fi = FuncInfo.of(f)
+    txts = [ast.unparse(canon(fi, st.value, inline=False)) for st in own_walk(f.node) if isinstance(st, ast.Assign)]
+    for nm_, frag in (('from SO(3) matrix', '[r2q(s)]'), ('from SE(3) matrix', '[r2q(t2r(s))]'), ('from SO3 objects', '[r2q(x.R) for x in s]')):
+        ok = frag in txts
+        (run.holds if ok else run.violation)(rule, f.key, 'conversion ' + nm_, frag if ok else 'no store of the form %s' % frag, f=f)
+    # convertfrom declarations
+    for key, cls in (('twist:Twist3.__init__', 'SE3'), ('twist:Twist2.__init__', 'SE2')):
+        g = run.prog.func(key)
+        ok = any(isinstance(n, ast.Call) and isinstance(n.func, ast.Attribute) and n.func.attr == 'arghandler' and
+                 any(k.arg == 'convertfrom' and ast.unparse(k.value) == '(%s,)' % cls for k in n.keywords) for n in own_walk(g.node))
+        (run.holds if ok else run.violation)(rule, key, 'convertfrom', 'declares conversion from %s' % cls if ok else 'does not declare convertfrom=(%s,)' % cls, f=g)
+    # double cover: isequal(unitq=True) accepts q and -q; UnitQuaternion == / != pass unitq=True
+    cx = Ctx(run, 'base/quaternions:isequal')
+    okdc = False
+    for r, fs in cx.returns():
+        if any(fc[1] and isinstance(fc[2].ast, ast.Name) and fc[2].ast.id == 'unitq' for fc in fs):
+            e = canon(cx.fi, r.value)
+            if matches('sum(abs(q1 - q2)) < __ or sum(abs(q1 + q2)) < __', e) is not None:
+                okdc = True
+            else:
+                run.violation(rule, cx.f.key, 'double cover', 'with unitq=True equality must accept q2 = q1 and q2 = -q1 (|q1 - q2| or |q1 + q2| small); found %s' % src(r.value, 80), f=cx.f, node=r)
+    if okdc:
+        run.holds(rule, cx.f.key, 'double cover', 'q and -q compare equal under unitq=True', f=cx.f)
+    for key, neg in (('quaternion:UnitQuaternion.__eq__', False), ('quaternion:UnitQuaternion.__ne__', True)):
+        g = run.prog.func(key)
+        gi = FuncInfo.of(g)
+        pat = 'left.binop(right, lambda x, y: %sisequal(x, y, unitq=True), list1=False)' % ('not ' if neg else '')
+        rets = [canon(gi, r.value) for r in own_returns(g.node) if r.value is not None]
+        ok = rets and all(matches(pat, e) is not None for e in rets)
+        if ok:
+            run.holds(rule, key, 'double cover', 'compares with unitq=True', f=g)
+        elif rets and 'unitq=True' not in ast.unparse(rets[0]):
+            run.violation(rule, key, 'double cover', 'unit quaternions are compared without unitq=True: q and -q (the same rotation) compare unequal', f=g)
+        else:
+            run.error('R13: %s: unrecognised form' % key)
+    # unit dual quaternion from SE3
+    g = run.prog.func('DualQuaternion:UnitDualQuaternion.__init__')
+    gi = FuncInfo.of(g)
+    vals = {}
+    for st in own_walk(g.node):
+        if isinstance(st, ast.Assign) and isinstance(st.targets[0], ast.Attribute):
+            vals.setdefault(st.targets[0].attr, []).append(canon(gi, st.value))
+    nmq = Normaliser(noncomm=True)
+    okr = any(matches('UnitQuaternion(real.R)', e) is not None for e in vals.get('real', []))
+    okd = any(nmq.poly(e) == nmq.poly(parse_expr('0.5 * Quaternion.Pure(real.t) * UnitQuaternion(real.R)')) for e in vals.get('dual', []))
+    (run.holds if okr else run.violation)(rule, g.key, 'real part', 'real = UnitQuaternion(T.R)' if okr else 'real part is not UnitQuaternion(T.R)', f=g)
+    (run.holds if okd else run.violation)(rule, g.key, 'dual part', 'dual = 0.5 * Pure(T.t) * real' if okd else 'dual part is not 0.5 * Pure(T.t) * real (operand order matters)', f=g)
+    # SE2 -> SE3 lift table
+    g = run.prog.func('pose2d:SE2.SE3.<locals>.lift3')
+    gi = FuncInfo.of(g)
+    tbl = {}
+    alloc = None
+    for st in own_walk(g.node):
+        if isinstance(st, ast.Assign):
+            t = st.targets[0]
+            if isinstance(t, ast.Name):
+                alloc = canon(gi, st.value, inline=False)
+            elif isinstance(t, ast.Subscript):
+                tbl[Normaliser().slice_str(t.slice)] = ast.unparse(canon(gi, st.value, inline=False))
+    want = {':2, :2': 'x.A[:2, :2]', ':2, 3': 'x.A[:2, 2]', '2, 3': 'z'}
+    ok = alloc is not None and matches('eye(4)', alloc) is not None and tbl == want
+    (run.holds if ok else run.violation)(rule, g.key, 'lift table', 'y = eye(4); rotation block, translation column, z' if ok else 'SE2 -> SE3 lift writes %s, expected %s on eye(4)' % (tbl, want), f=g)
